@@ -7,7 +7,7 @@ From FlacWriters Require Import Params_proofs.
 From FlacReaders Require Readers Spec Ser RNum Seek.
 From FlacWriters Require Import Lists_proofs Writers_proofs.
 From FlacWriters Require Import Bytes_proofs Cross_proofs.
-From FlacE2E Require Import Bridge E2E SampleE2E Success ChannelE2E ByteE2E ByteSuccess ChannelSuccess ReadBridge ReadersE2E InterruptedE2E SeekE2E SeekReadE2E Transfer DecodedFile DamagedFile InterruptedBytes InterruptedChannels OutputBound NoPanicFile.
+From FlacE2E Require Import Bridge E2E SampleE2E Success ChannelE2E ByteE2E ByteSuccess ChannelSuccess ReadBridge ReadersE2E InterruptedE2E SeekE2E SeekReadE2E Transfer DecodedFile DamagedFile InterruptedBytes InterruptedChannels OutputBound NoPanicFile SizeBound.
 Import ListNotations.
 Open Scope N_scope.
 
@@ -824,6 +824,25 @@ Theorem C08_partial_dropped_byte : forall enc_block md5 p en o rate bps ch total
   byte_run enc_block md5 p w [x ++ partial] = byte_run enc_block md5 p w [x].
 Proof. exact byte_partial_dropped. Qed.
 
+(* C19 composed with the writers area, hypotheses on the input only: the audio part of the finished file is at most the
+   sum over the encoded blocks of (16 header bytes + the channels verbatim, one more bit per sample for the side channel of
+   a stereo pair, rounded up to bytes + 2 CRC bytes) — `blocks_bound`, defined in SizeBound.v *)
+Theorem C19_written_audio_size_bounded : forall o L md5, (forall l, length (md5 l) = 16%nat) ->
+  forall p rate bps ch, rate < 2 ^ 20 -> 1 <= bps -> bps <= 32 -> 1 <= ch -> ch <= 8 ->
+  forall wo total w chunks,
+  options_wf wo ->
+  sample_new p [] wo rate bps ch total = Ok w ->
+  forallb (FlacCodec.Wf.fits bps) (concat chunks) = true ->
+  let W := N.of_nat (length (concat chunks)) / ch in
+  1 <= W -> N.of_nat (length (concat chunks)) < 2 ^ 36 ->
+  match total with Some T => T = ch * W | None => True end ->
+  exists f blocks,
+    sample_run (encB o L rate bps) md5 p w chunks = Ok f /\
+    concat (map FlacCodec.Stream.interleave_frame blocks) =
+      firstn (N.to_nat ch * (length (concat chunks) / N.to_nat ch)) (concat chunks) /\
+    N.of_nat (length (frames_bytes (f_enc f))) <= blocks_bound bps blocks.
+Proof. exact written_audio_size_bounded. Qed.
+
 Print Assumptions C07_decoded_file_is_read_bytes_channels.
 Print Assumptions C03_valid_file_is_read.
 Print Assumptions C07_decoded_file_is_read.
@@ -894,3 +913,4 @@ Print Assumptions C08_no_panic_channel_debug.
 Print Assumptions C15_length_contract_byte.
 Print Assumptions C15_length_contract_channel.
 Print Assumptions C08_partial_dropped_byte.
+Print Assumptions C19_written_audio_size_bounded.
